@@ -294,6 +294,16 @@ func c17TreeJudge(ctx *Ctx, res *Result, runs []c17TreeRunResult) {
 				}
 			}
 		}
+		// the coverage floors measure the generator, hence the predicted verdicts
+		if len(expected) > 0 {
+			res.Count("pkgtree_runs_with_verdicts", 1)
+		}
+		for v := range expected {
+			res.Count("pkgtree_verdicts_expected", 1)
+			if v.FFile == sc.fragPath(r.cat) {
+				res.Count("pkgtree_verdicts_on_fragment_lines", 1)
+			}
+		}
 		obs := map[c17PathVerdict]bool{}
 		for _, v := range r.observed {
 			obs[v] = true
@@ -322,9 +332,6 @@ func c17TreeJudge(ctx *Ctx, res *Result, runs []c17TreeRunResult) {
 		}
 		for _, v := range r.observed {
 			res.Count("pkgtree_verdicts_"+string(v.Kind), 1)
-			if v.FFile == sc.fragPath(r.cat) {
-				res.Count("pkgtree_verdicts_on_fragment_lines", 1)
-			}
 			located := false
 			for k, c := range allCtx[i] {
 				// the closed world is what pkglint was asked to check
@@ -621,9 +628,6 @@ func c17TreeLayer(ctx *Ctx, res *Result) {
 		res.Count("pkgtree_spelling_"+sc.FragKind, 1)
 		if sc.Args[0] == "-r" {
 			res.Count("pkgtree_runs_recursive", 1)
-		}
-		if len(runs[i].observed) > 0 {
-			res.Count("pkgtree_runs_with_verdicts", 1)
 		}
 	}
 	res.Evaluations += len(scs)
